@@ -60,6 +60,7 @@ func Parse(expr string) Pattern {
 		}
 		lit = lit[:0]
 	}
+	open := false
 	for i := 0; i < len(expr); {
 		if expr[i] != '%' || i+1 >= len(expr) || expr[i+1] != '{' {
 			lit = append(lit, expr[i])
@@ -73,8 +74,9 @@ func Parse(expr string) Pattern {
 		body := expr[i+2:]
 		j := strings.IndexByte(body, '}')
 		if j < 0 {
-			p.addErr("unclosed")
-			return p
+			p.addErr("unclosed") // the rest of the expression is the open token
+			open = true
+			break
 		}
 		name := body[:j]
 		tok := Token{Name: name}
@@ -91,7 +93,12 @@ func Parse(expr string) Pattern {
 		p.Tokens = append(p.Tokens, tok)
 		i += 2 + j + 1
 	}
-	closeLiteral()
+	if !open {
+		closeLiteral()
+	}
+	// the tokens read so far are judged even when a later one is unclosed: an
+	// expression may hold several kinds of error, and which one is reported
+	// is not specified
 	captured := map[string]bool{} // membership only, never iterated
 	for _, t := range p.Tokens {
 		if t.Skip {
